@@ -205,10 +205,12 @@ class CallMixin(object):
         if self.module is None:
             return None
         c = self.reg.contracts.get((self.module.rel, name))
+        if c is not None and c.verify_only:
+            return None
         if c is not None:
             return c
         # imported name: look for a unique contract with that function name
-        cands = [c for (m, q), c in self.reg.contracts.items() if q == name]
+        cands = [c for (m, q), c in self.reg.contracts.items() if q == name and not c.verify_only]
         return cands[0] if len(cands) == 1 else None
 
     def call_external(self, ext, e, st):
@@ -295,11 +297,19 @@ class CallMixin(object):
                 g = self.spec_bool(text, pre)
                 self.oblige(st, "pre@call", "%s#%d@%s" % (c.qualname, idx, _callsite(node, self)), text, g, line)
         results = []
-        if c.pure:
-            # a pure callee whose contract fixes the result is used as that expression (no fresh symbol)
+        collect = getattr(self, "comp_collect", None) if self.in_spec else None
+        if c.pure or (collect is not None and not c.modifies):
+            # a pure callee whose contract fixes the result is used as that expression (no fresh symbol); inside the element of a
+            # comprehension executed as CODE the same holds for a callee that may raise: its raise conditions are collected, the
+            # comprehension raises iff one of them holds at some position that passes the filter
             for text in (c.call_ensures if c.call_ensures is not None else c.ensures):
                 t = text.strip()
                 if t.startswith("result == "):
+                    if collect is not None and not c.pure:
+                        for ename, cond in c.raises.items():
+                            if cond is None or cond.startswith("?"):
+                                raise OutsideSubset("call of %s inside a comprehension: it may raise at unspecified times" % c.qualname)
+                            collect.append((ename, self.spec_bool(cond, pre)))
                     v = self.spec(t[len("result == "):], pre)
                     if c.returns is BOOL:
                         v = V(BOOL, truthy(v))
